@@ -183,6 +183,7 @@ class World:
             tm = par["tmo"][X]
             ch.settimeout({"block": None, "timed": 0.5, "nonblock": 0.0}[tm])
             self._tap(ch, X)
+            self._tap_wait(ch, X)
             ft.fail_data = set(par.get("fail", {}).get(X, ()))
             self.ft[X], self.ch[X] = ft, ch
 
@@ -197,9 +198,20 @@ class World:
                 return out
             pipe.read = read
 
+    def _tap_wait(self, ch, X):
+        """log every wait on the send-window condition with the virtual time and the deadline it was given"""
+        cv = ch.out_buffer_cv
+        real = cv.wait
+
+        def wait(timeout=None):
+            now = self.S.now
+            self.log("wait", side=X, dl=-1 if timeout is None else int(round((now + timeout - 1000.0) * 1000)))
+            return real(timeout)
+        cv.wait = wait
+
     def log(self, ev, **kw):
         me = self.S.cur()
-        rec = {"ev": ev, "th": me.name if me is not None else "-"}
+        rec = {"ev": ev, "th": me.name if me is not None else "-", "now": int(round((self.S.now - 1000.0) * 1000))}
         rec.update(kw)
         self.events.append(rec)
 
@@ -269,6 +281,17 @@ class World:
             elif kind == "await_window":      # what an application polling send_ready() does: go on once the window has reopened
                 if not (ch.out_window_size > 0 or ch.closed):
                     self.S.block(lambda: ch.out_window_size > 0 or ch.closed, None, "await_window")
+            elif kind == "zero_adjusts":      # a peer that sends op[1] WINDOW_ADJUSTs of 0 bytes, op[2] ms apart (legal, and futile)
+                from paramiko.message import Message
+                from paramiko.common import cMSG_CHANNEL_WINDOW_ADJUST
+                for _ in range(op[1]):
+                    dl = self.S.now + op[2] / 1000.0
+                    self.S.block(lambda dl=dl: self.S.now >= dl, dl, "sleep")
+                    m = Message()
+                    m.add_byte(cMSG_CHANNEL_WINDOW_ADJUST)
+                    m.add_int(ch.remote_chanid)
+                    m.add_int(0)
+                    ch.transport._send_user_message(m)
             elif kind == "await_below":       # ... until a writer has taken window again (out_window_size < op[1])
                 if not (ch.out_window_size < op[1] or ch.closed):
                     self.S.block(lambda: ch.out_window_size < op[1] or ch.closed, None, "await_below")
@@ -576,10 +599,10 @@ def tla_par(prog):
             "maxpkt": {X: min(eff[other[X]] - 64, CAP) for X in "AB"},
             # (C19 bounds a message by the peer's maximum packet size only when that is at least the 4096-byte floor)
             "peermax": {X: min(par["pkt"][other[X]], CAP) if par["pkt"][other[X]] >= MIN_PACKET_SIZE else CAP for X in "AB"},
-            "tmo": dict(par["tmo"])}
+            "tmo": dict(par["tmo"]), "budget": 500}      # the "timed" class is settimeout(0.5)
 
 
-EV_DEFAULTS = {"ev": "", "th": "-", "side": "A", "t": "", "n": 0, "code": 0, "op": "", "out": "", "exc": "",
+EV_DEFAULTS = {"now": 0, "dl": -1, "ev": "", "th": "-", "side": "A", "t": "", "n": 0, "code": 0, "op": "", "out": "", "exc": "",
                "kind": "", "dead": False, "dropped": False, "linked": True}
 
 
